@@ -161,6 +161,52 @@ Definition spec_addr_reply (family : Z) (rec : dnsrec) (want_host arr_given : bo
                  end in
   mkAO status hv (match naddrttls with Some _ => Some (Z.of_nat (length written)) | None => None end) written.
 
+(* ---------------- addrinfo level (shared with C13) ---------------- *)
+Definition is_nil {A} (l : list A) : bool := match l with [] => true | _ :: _ => false end.
+Definition is_some {A} (o : option A) : bool := match o with Some _ => true | None => false end.
+
+Definition cn_of (c : str * str * Z) : ai_cname :=
+  mkCname (snd c) (Some (fst (fst c))) (Some (snd (fst c))).
+
+Definition node_of (port : Z) (r : rr) : option ai_node :=
+  if is_in r then
+    match rr_data r with
+    | RD_A a => Some (mkNode LEG_AF_INET a port (to_int (rr_ttl r)))
+    | RD_AAAA a => Some (mkNode LEG_AF_INET6 a port (to_int (rr_ttl r)))
+    | _ => None
+    end
+  else None.
+
+
+Definition fam_nodes (family : Z) (nodes : list ai_node) : list ai_node :=
+  filter (fun nd => n_family nd =? family) nodes.
+
+
+(* what the caller reads from the hostent produced for a fresh *host *)
+Definition a2h_view (ai : addrinfo) (family : Z) : Z * hview :=
+  if is_nil (fam_nodes family (ai_nodes ai)) && is_nil (ai_cnames ai) then (ARES_ENODATA, VNull)
+  else (ARES_SUCCESS,
+        VHost (mkHV (match ai_cnames ai with c :: _ => c_name c | [] => ai_name ai end)
+                    (filter_map c_alias (ai_cnames ai)) family
+                    (if family =? LEG_AF_INET then LEG_IN_ADDR_SIZE else LEG_IN6_ADDR_SIZE)
+                    (map n_addr (fam_nodes family (ai_nodes ai))))).
+
+
+Definition ttl_entry (cttl : Z) (nd : ai_node) : bin * Z :=
+  (n_addr nd, if n_ttl nd >? cttl then cttl else n_ttl nd).
+
+
+(* what ares_parse_into_addrinfo has to append: one node per IN A/AAAA record, in answer
+   order, with the caller's port and the record's TTL; one cname entry per IN CNAME *)
+Definition spec_nodes (port : Z) (answers : list rr) : list ai_node := filter_map (node_of port) answers.
+Definition spec_cnames (answers : list rr) : list ai_cname := map cn_of (filter_map proj_cname answers).
+
+(* elements ares_addrinfo2addrttl stores for a capacity req > 0 *)
+Definition spec_addrttl (ai : addrinfo) (family req : Z) : list (bin * Z) :=
+  firstn (Z.to_nat req)
+         (map (fun nd => (n_addr nd, Z.min (n_ttl nd) (fold_right Z.min LEG_INT_MAX (map c_ttl (ai_cnames ai)))))
+              (fam_nodes family (ai_nodes ai))).
+
 (* ---------------- malformed ---------------- *)
 (* a "malformed-message error" is any status other than success and no-data *)
 Definition is_malformed_status (s : Z) : bool := negb (s =? ARES_SUCCESS) && negb (s =? ARES_ENODATA).
